@@ -84,6 +84,25 @@ func IsKnown(property, key string) (string, bool) {
 	return d, ok
 }
 
+// IceV2OffsetsPanicKey: third-party defect in github.com/blugelabs/ice/v2 read.go
+// getDocStoredOffsets: the two length varints of a stored entry are sliced with
+// MaxVarintLen64 bytes each, which runs past the decompressed chunk for the last document of a
+// segment whose stored entries are short ("slice bounds out of range [:n] with capacity m").
+const IceV2OffsetsPanicKey = "icev2-stored-offsets-panic"
+
+// ClassifyThirdParty re-keys failures whose root cause is a specific, identified defect of a
+// bundled third-party library, so that they can be listed (per property) as known findings
+// without hiding anything else.
+func ClassifyThirdParty(f *Failure) {
+	if f == nil {
+		return
+	}
+	if strings.HasPrefix(f.Key, "panic@") && strings.Contains(f.Msg, "slice bounds out of range") &&
+		strings.Contains(f.Msg, "ice/v2.(*Segment).getDocStoredOffsets") {
+		f.Key = IceV2OffsetsPanicKey
+	}
+}
+
 // Replay is the JSON document written for a failing case.
 type Replay struct {
 	Property string          `json:"property"`
@@ -111,6 +130,7 @@ func Report(t TB, ev *Evidence, test string, c interface{}, f *Failure) bool {
 	if f == nil {
 		return false
 	}
+	ClassifyThirdParty(f)
 	if desc, ok := IsKnown(ev.Property, f.Key); ok {
 		ev.Known(f.Key, desc)
 		return false
